@@ -57,6 +57,15 @@ def variant_maps(chk, F, rule, cfg):
                         ok = True   # explicit form of `?`: the inner leaf of this arm was exhausted
                 chk.ob(rule, 'whole-value None is only produced by kinds that cannot lend (&mut leaves)', ok, config=cfg, fn=fn, site='none:%s' % vin, what='output() None for %s in %s' % (vin, fn.defp[:60]), found=fn.defp)
                 continue
+            if is_call(r, r'^core::(option::Option|result::Result)::map$') and len(r[2]) == 2 and strip(r[2][1])[0] == 'c' and isinstance(strip(r[2][1])[1], tuple) and strip(r[2][1])[1][0] == 'fn':
+                # `inner_conversion(payload).map(Variant)`: std contract Some(v)/Ok(v) -> Some/Ok(Variant(v)), None/Err(e) -> None/Err(e)
+                ctor = strip(r[2][1])[1][1].rsplit('::', 1)[-1]
+                src = strip(r[2][0])
+                conv_ok = is_call(src, r'GetOutput>?::output$|IntoReturn(Once)?::into_return(_once)?$') and \
+                    mentions(src, lambda x: x[0] == 'as' and x[2] == vin and strip(x[1]) in (('param', 0, 1), ('deref', ('param', 0, 1))))
+                chk.ob(rule, '%s: variant %s maps to %s, payload converted from that arm\'s payload' % (fn.name, vin, vin), ctor == vin and conv_ok, config=cfg, fn=fn, site='variant:%s' % vin,
+                       what='%s -> map(%s) (payload from arm: %s)' % (vin, ctor, conv_ok), found={'in': vin, 'out': ctor, 'payload': show(src)[:160]}, expected={'out': vin})
+                continue
             if not (r[0] == 'agg' and r[3] == success_variant and r[4]):
                 chk.ob(rule, '%s returns Some/Ok(converted) or fails as a whole' % fn.name, False, config=cfg, fn=fn, site='shape:%s' % vin, unrecognised=True, what='result shape for %s: %s' % (vin, show(r)[:80]), found=show(r)[:200])
                 continue
@@ -123,6 +132,11 @@ def vec_traversals(chk, F, rule, cfg):
                     chk.ob(rule, 'Vec conversion is a loop or a map/collect pipeline', False, config=cfg, fn=fn, site='shape', unrecognised=True, what='vec conversion shape', found=show(r)[:200])
 
 
+def _success_branch(F, d):
+    var = decision_variant(F, d)
+    return var in ('Continue', 'Some', 'Ok')
+
+
 def tuple_slots(chk, F, rule, cfg):
     fns = [f for f in F.fns.values() if re.search(r'output::deep::tuples::tup\d', f.defp) and f.kind == 'assoc']
     chk.floor(rule, 'tuple conversion functions', len(fns), 12, config=cfg)
@@ -141,6 +155,20 @@ def tuple_slots(chk, F, rule, cfg):
                 idxs = sorted(set(x[2] for x in src))
                 ok = ok and idxs == [str(i)]
             chk.ob(rule, 'slot i of the produced tuple is the conversion of slot i of the configured tuple (arity %d)' % n, ok, config=cfg, fn=fn, site='slots', what='tuple slots of %s' % fn.defp[:60], found=show(inner)[:300])
+        if fn.name == 'output':
+            # all-or-nothing: an element is only asked for its output (which *takes* a single-use leaf) after every earlier element
+            # has produced one - a request that is going to fail must not consume later leaves
+            for p in paths:
+                convs = [e for e in p.effects if e.kind == 'call' and re.search(r'GetOutput>?::output$', e.data[1])]
+                ok_sc = True
+                for k, e in enumerate(convs):
+                    before = p.decisions[:e.ndec]
+                    for c in convs[:k]:
+                        cv = ('call', c.data[1], c.data[2], c.data[3])
+                        decided = any(mentions(d.value, lambda x: x == cv) and _success_branch(F, d) for d in before)
+                        ok_sc = ok_sc and decided
+                chk.ob(rule, 'tuple output is all-or-nothing: element i+1 is only consulted once element i has produced its output (arity %d)' % n, ok_sc, config=cfg, fn=fn, site='short-circuit',
+                       what='tuple output consults later elements before earlier ones succeeded', found=[e.data[1].rsplit('::', 2)[-2:] for e in convs][:4])
 
 
 def leaves(chk, F, rule, cfg):
